@@ -588,8 +588,8 @@ class ADEV(Pytree):
                         # copy of the environment.
                         cond_env = dual_env
 
-                        def _cond_dual_kont(dual_tree: list[Any]):
-                            dual_leaves = Dual.tree_pure(dual_tree)
+                        def _cond_dual_kont(dual_tree: Any):
+                            dual_leaves = Dual.tree_leaves(Dual.tree_pure(dual_tree))
                             return eval_jaxpr_iterate_dual(
                                 eqns[eqn_idx + 1 :],
                                 cond_env.copy(),
@@ -664,9 +664,12 @@ class ADEV(Pytree):
                     eqn.outvars,
                     Dual.dual_tree(primal_outs, tangent_outs),
                 )
-            (out_dual,) = jax_util.safe_map(dual_env.read, jaxpr.outvars)
-            if not isinstance(out_dual, Dual):
-                out_dual = Dual(out_dual, _zero_tangent_like(out_dual))
+            out_duals = [
+                d if isinstance(d, Dual) else Dual(d, _zero_tangent_like(d))
+                for d in jax_util.safe_map(dual_env.read, jaxpr.outvars)
+            ]
+            # A single output stays a bare Dual; a branch of a cond may have several.
+            out_dual = out_duals[0] if len(out_duals) == 1 else out_duals
             if dual_kont is not None:
                 return dual_kont(out_dual)
             return out_dual
